@@ -339,9 +339,9 @@ double Inv_GammaP(double p, double a)
 			t = afac * exp(-(x - a1) + a1 * (log(x) - lna1));
 		else
 			t = exp(-x + a1 * log(x) - gln);
-		if(!(t > 0.0))
-			break;	 // The density underflows this far in the tail, P(x,a) equals 0 or 1 to working precision and the step u = error / t is undefined.
 		double u = error / t;
+		if(!(t > 0.0) || !std::isfinite(u))
+			break;	 // The density underflows this far in the tail, P(x,a) equals 0 or 1 to working precision and the step u = error / t is undefined.
 		x -= (t = u / (1. - 0.5 * std::min(1., u * ((a - 1.) / x - 1))));
 		if(x <= 0.)
 			x = 0.5 * (x + t);
